@@ -258,6 +258,12 @@ VALUE_FORMS = [
     ('printf "a\\n" print 1', 'a\n1'),
     ('printf "x {}\\n" 2 print 3 println 4 print 5', 'x 2\n3 4\n5'),
     ('print 0 printf "{}\\n" 1 printf "{}\\n" 2', '0 1\n2\n'),
+    # a line break inside a printf text does not end the line that follows it
+    ('hue 120 saturation 50 printf "x\\nhue {hue:.0f}" print saturation', 'x\nhue 120 50'),
+    ('printf "\\na" print 1 println 2', '\na 1 2\n'),
+    # a script that dies while collecting the values of a printf has written what it printed before, and nothing else
+    ('print "a" printf "{} {}" 1 {1 / 0} print "b"', 'a'),
+    ('define f with x begin return {x / 0} end print 1 printf "{} {} {}" 2 3 [f 4]', '1'),
     ('assign x 0 print not x println not 5', 'True False\n'),
     ('define f with a begin print a end f not 0', 'True'),
     ('repeat 2 with h cycle -90 begin print h end', '-90 90.0'),
